@@ -1167,6 +1167,85 @@ fn udpe2e(args: &[&str]) -> String {
     })
 }
 
+/// udpsplit <gap_ms> <cut> <size>...   UDP over TCP, server -> client direction, against a scripted AnyTLS server session:
+/// after the association is up and the application's first datagram has gone out, the server returns one record per
+/// <size>, each as TWO data frames -- the first <cut> bytes of the record (cut 1 = inside the length prefix, 2 = the
+/// prefix alone, h = half of the record), then <gap_ms> of silence, then the rest. Records are a byte stream: the
+/// application must receive every datagram whole, in order.  -> <size>:<t|f> ...
+fn udpsplit(args: &[&str]) -> String {
+    let gap: u64 = args[0].parse().unwrap();
+    let cut_tok = args[1].to_string();
+    let sizes: Vec<usize> = args[2..].iter().map(|a| a.parse().unwrap()).collect();
+    let payload = |i: usize, n: usize| -> Vec<u8> { (0..n).map(|j| ((i * 89 + j * 13 + j / 253) & 255) as u8).collect() };
+    real_rt().block_on(async move {
+        let sizes2 = sizes.clone();
+        let connector: anytls_rs::client::VerifConnector = Arc::new(move || {
+            let (a, b) = tokio::io::duplex(1 << 20);
+            let sizes = sizes2.clone();
+            let cut_tok = cut_tok.clone();
+            tokio::spawn(async move {
+                let (mut r, w) = tokio::io::split(b);
+                let padding = PaddingFactory::default();
+                let ph = anytls_rs::hash_password(PASSWORD);
+                if anytls_rs::authenticate_client(&mut r, &ph, &padding).await.is_err() {
+                    return;
+                }
+                let (tx, mut rx) = mpsc::unbounded_channel::<Arc<Stream>>();
+                let mut session = Session::new_server(r, w, padding);
+                session.set_stream_callback(tx);
+                let session = Arc::new(session);
+                let s1 = session.clone();
+                tokio::spawn(async move {
+                    let _ = s1.recv_loop().await;
+                });
+                if let Some(stream) = rx.recv().await {
+                    let sid = stream.id();
+                    let _ = session.write_control_frame(Frame::control(Command::SynAck, sid)).await;
+                    // the application's first datagram tells the client-side relay where to deliver
+                    tokio::time::sleep(Duration::from_millis(400)).await;
+                    for (i, n) in sizes.iter().enumerate() {
+                        let mut rec = (*n as u16).to_be_bytes().to_vec();
+                        rec.extend_from_slice(&(0..*n).map(|j| ((i * 89 + j * 13 + j / 253) & 255) as u8).collect::<Vec<u8>>());
+                        let cut = match cut_tok.as_str() {
+                            "h" => rec.len() / 2,
+                            c => c.parse::<usize>().unwrap().min(rec.len() - 1),
+                        }
+                        .max(1);
+                        let _ = session.write_data_frame(sid, Bytes::copy_from_slice(&rec[..cut])).await;
+                        tokio::time::sleep(Duration::from_millis(gap)).await;
+                        let _ = session.write_data_frame(sid, Bytes::copy_from_slice(&rec[cut..])).await;
+                        tokio::time::sleep(Duration::from_millis(30)).await;
+                    }
+                    // keep the stream and the session alive until the client is done
+                    tokio::time::sleep(Duration::from_secs(30)).await;
+                    drop(stream);
+                }
+            });
+            let (r, w) = tokio::io::split(a);
+            (Box::new(r) as BoxR, Box::new(w) as BoxW)
+        });
+        let client = test_client();
+        client.verif_set_connector(Some(connector));
+        let target: SocketAddr = "127.0.0.1:9".parse().unwrap();
+        let proxy = match tokio::time::timeout(Duration::from_secs(5), client.create_udp_proxy("127.0.0.1:0", target)).await {
+            Ok(Ok(a)) => a,
+            _ => return "NO-ASSOCIATION".to_string(),
+        };
+        let app = tokio::net::UdpSocket::bind("127.0.0.1:0").await.unwrap();
+        let _ = app.send_to(b"hello", proxy).await;
+        let mut out = String::new();
+        let mut buf = vec![0u8; 70000];
+        for (i, n) in sizes.iter().enumerate() {
+            let want = payload(i, *n);
+            let back = tokio::time::timeout(Duration::from_millis(gap + 2500), app.recv_from(&mut buf)).await;
+            let ok = matches!(&back, Ok(Ok((m, _))) if buf[..*m] == want[..]);
+            out.push_str(&format!("{}:{} ", n, if ok { "t" } else { "f" }));
+        }
+        client.stop_session_pool_cleanup().await;
+        out.trim_end().to_string()
+    })
+}
+
 pub fn dispatch(drv: &str, args: &[&str]) -> Option<String> {
     match drv {
         "authsrv" => Some(authsrv(args)),
@@ -1183,6 +1262,7 @@ pub fn dispatch(drv: &str, args: &[&str]) -> Option<String> {
         "hashpw" => Some(hex(&anytls_rs::hash_password(&String::from_utf8(unhex(args[0])).unwrap()))),
         "dial" => Some(dial(args)),
         "udpe2e" => Some(udpe2e(args)),
+        "udpsplit" => Some(udpsplit(args)),
         _ => None,
     }
 }
